@@ -29,8 +29,10 @@ REGISTRY = {
         "quick": {"workers": 8, "n_hist": 640},
         "thorough": {"workers": 16, "n_hist": 160000}}},
     "C12": {"level": "exploration", "tiers": {
-        "quick": {"workers": 8, "n_hist": 160},
-        "thorough": {"workers": 16, "n_hist": 12000}}},
+        "quick": {"workers": 8, "n_hist": 150, "n_scale": 4,
+                  "scale_sizes": [40, 300, 2100, 1100]},
+        "thorough": {"workers": 16, "n_hist": 12000, "n_scale": 320,
+                     "scale_sizes": [300, 700, 1100, 2100, 4200]}}},
     "C05": {"level": "exploration", "tiers": {
         "quick": {"workers": 8, "n_hist": 320},
         "thorough": {"workers": 16, "n_hist": 30000}}},
